@@ -75,4 +75,8 @@ InvTofK == k = 3 => /\ TofKAgrees(c, O)
 \* the rebinning is a function of the input BIN (it cannot separate pairs that the input merged), and the
 \* memo table agrees with the definition
 InvMapDef == k = 3 => \A b \in DOMAIN mapT : mapT[b] = NoBin \/ (mapT[b] \in AllBinsWide(O))
+\* vacuity guards: these two MUST be refuted (MC_Rebin_vac*.cfg) - some pair is covered by both geometries and mapped,
+\* and some legal parameter set leaves nothing out
+InvNeverCovered == k = 3 => \A x \in AllPairsT(c) : ~(Covered(c, binI[x]) /\ Covered(O, binO[x]) /\ binO[x].seg # 0 /\ p.segComb > 1 /\ p.viewComb > 1)
+InvNeverConserved == k = 3 => ~(NothingTrimmed(c, p) /\ p.segComb > 1 /\ p.tofComb > 1)
 =============================================================================
